@@ -191,6 +191,11 @@ def _check_day(out, dt, ymd, dt2str, y, m, d):
         ('Month d, yyyy', '%s %d, %04d' % (full, d, y)),
         ('Mon d, yyyy', '%s %d, %04d' % (abbr, d, y)),
         ('d-Mon-yyyy', '%d-%s-%04d' % (d, abbr, y)),
+        # year first
+        ('yyyy-Mon-dd', '%04d-%s-%02d' % (y, abbr, d)),
+        ('yyyy Month d', '%04d %s %d' % (y, full, d)),
+        ('yyyy/mon/dd', '%04d/%s/%02d' % (y, abbr.lower(), d)),
+        ('yyyy.Month.dd', '%04d.%s.%02d' % (y, full, d)),
     ]
     for form, s in names:
         same('uk:' + form, 'dt(%r)' % s, t0, dt, s)
@@ -200,6 +205,16 @@ def _check_day(out, dt, ymd, dt2str, y, m, d):
     same('ymd(datetime)', 'ymd(%r)' % (t0,), t0, ymd, DATETIME(y, m, d))
     same('ymd(date)', 'ymd(%r)' % (date,), t0, ymd, date)
     same('ymd(y,m,d)', 'ymd(%d, %d, %d)' % (y, m, d), t0, ymd, y, m, d)
+    # ymd of strings, in either dialect (ymd forwards the dialect)
+    s_uk = '%02d-%02d-%04d' % (d, m, y)
+    s_us = '%02d/%02d/%04d' % (m, d, y)
+    same('ymd(uk string)', 'ymd(%r)' % s_uk, t0, ymd, s_uk)
+    same('ymd(us string)', "ymd(%r, dialect='us')" % s_us, t0, ymd, s_us, dialect='us')
+    same('ymd(iso string)', 'ymd(%r)' % s_iso, t0, ymd, s_iso)
+    same('ymd(int yyyymmdd)', 'ymd(%d)' % n, t0, ymd, n)
+    if d > 12:
+        D.rejected('ymd: us reads dd-mm-yyyy', "ymd(%r, dialect='us')" % s_uk, ymd, s_uk, dialect='us')
+        D.rejected('ymd: uk reads mm/dd/yyyy', 'ymd(%r)' % s_us, ymd, s_us)
 
     # ---- wrong dialect must be rejected, not swapped -------------------------------------------
     if d > 12:
